@@ -11,6 +11,12 @@ fn usage() -> ! {
 }
 
 fn main() {
+    // VERIF_TRACE=<file>: the driver's tracing events (TRACE level) go to that file (debugging aid)
+    if let Ok(path) = std::env::var("VERIF_TRACE") {
+        if let Ok(f) = std::fs::File::create(&path) {
+            let _ = tracing_subscriber::fmt().with_max_level(if std::env::var("VERIF_TRACE_LEVEL").as_deref() == Ok("trace") { tracing::Level::TRACE } else { tracing::Level::DEBUG }).with_ansi(false).with_writer(std::sync::Mutex::new(f)).try_init();
+        }
+    }
     let args: Vec<String> = std::env::args().collect();
     if args.len() < 2 {
         usage();
